@@ -8,6 +8,8 @@ import YaegiVerif.Proofs.C12Dom
         FN    = ((param…) (result…) BLOCK)        params/results are simple types
         BLOCK = (STMT…)
    op OP KIND                  → y=<0|1> g=<0|1>      (table decision / Go specification)
+   arraylit LEN (ELEM…)        → y= g= lax=           index discipline of an array (LEN ≥ 0) or slice (LEN = -1) literal;
+                                                       ELEM = pos | (key K)
    pipeline COMPILEFAILS NORUN → err=<0|1> executed=<0|1> effects=<n> known=<0|1>
    Types: basic name | (named id under (m…)) | (ptr S) | (slice S) | (array n S) | (map S S) | (chan dir S)
           | (func (S…) (S…)) | (struct id (S…) (m…)) | (iface id (m…)) -/
@@ -153,6 +155,22 @@ def handle (args : List Sexp) : String :=
   | [.atom "op", .atom o, .atom k] =>
     (match op? o, kind? k with
      | some o, some k => s!"y={b01 (predY Generated.C12.opFacts o k)} g={b01 (Spec.definedOn o k)}"
+     | _, _ => "bad-op")
+  | [.atom "arraylit", len, .list es] =>
+    let elem? : Sexp → Option LitElem := fun e =>
+      match e with
+      | .atom "pos" => some .pos
+      | .list [.atom "key", k] => k.int?.map LitElem.keyed
+      | _ => none
+    (match len.int?, es.mapM elem? with
+     | some l, some elems =>
+       let isArray := decide (l ≥ 0)
+       let n := l.toNat
+       let y := (arrayLitY Generated.C12.tcFacts isArray n elems 0 0 []).verdict
+       let g := (Spec.arrayLitG (if isArray then some n else none) elems 0 []).verdict
+       -- the only listed class: a constant key into an array of length 0 (check.index returns before the bound test)
+       let lax := if y == g then "none" else if isArray && n == 0 then Lax.constantIndexZeroLengthArray.name else Lax.other.name
+       s!"y={y.show} g={g.show} lax={lax}"
      | _, _ => "bad-op")
   | [.atom "pipeline", cf, nr] =>
     (match cf.bool?, nr.bool? with
